@@ -12,7 +12,7 @@ import docgen as D
 from common import REPO, Str, sx
 
 ID = 'C15'
-LEAN_MODULES = ['Cellml.Props.C15', 'Cellml.Tie.ConnLoop', 'Cellml.Tie.LoaderConsts', 'Cellml.Tie.GraphBuild', 'Cellml.Props.C15Gen']
+LEAN_MODULES = ['Cellml.Props.C15', 'Cellml.Tie.ConnLoop', 'Cellml.Tie.LoaderConsts', 'Cellml.Tie.GraphBuild', 'Cellml.Props.C15Gen', 'Cellml.Tie.ConvertVarDriver', 'Cellml.Tie.RolesQueries']
 N = {'quick': 10, 'thorough': 60}
 SEEDS = {'quick': 8, 'thorough': 64}
 RULE = ('cases = every file of tests/cellml_files (the four big models a case each, the small ones sharing their '
@@ -121,13 +121,37 @@ def dump(path):
                                                                         key=pos.get))
     except Exception as e:
         o['query_err'] = type(e).__name__ + ': ' + str(e)[:120]
+    # annotations: the ontology terms of a variable come back in the order of the document's RDF
+    try:
+        ox = 'https://chaste.comlab.ox.ac.uk/cellml/ns/oxford-metadata#'
+        o['terms'] = [[v.name, list(m.get_ontology_terms_by_variable(v)), list(m.get_ontology_terms_by_variable(v, ox)),
+                       m.get_display_name(v, ox)] for v in vs if v.rdf_identity is not None]
+    except Exception as e:
+        o['terms'] = 'err:' + type(e).__name__
+    # the model AFTER a manipulation must not depend on hash seeds / element order either: convert the free variable
+    # (every ODE is rewritten, one new variable per state, in the order of introduction of the states)
+    try:
+        free = m.get_free_variable()
+    except Exception:
+        free = None
+    if free is not None and o.get('query_err') is None:
+        try:
+            from cellmlmanip.model import DataDirectionFlow
+            nu = m.units.add_unit('c15_kilo_t', '1000 * %s' % m.units.format(free.units))
+            m.convert_variable(free, nu, DataDirectionFlow.INPUT)
+            o['ac_variables'] = [v.name for v in m.variables()]
+            o['ac_equations'] = [re.sub(r'store\d+_', '', str(e)) for e in m.equations]
+            o['ac_derived'] = [v.name for v in m.get_derived_quantities()]
+        except Exception as e:
+            o['ac_variables'] = 'err:' + type(e).__name__
     return o
 
 print(json.dumps([dump(p) for p in sys.argv[1:]]))
 '''
 
 # the order in which dumps are compared: the first differing entry names the oracle key
-QUERIES = ['outcome', 'query_err', 'variables', 'vars_full', 'equations', 'states', 'state_inits', 'derivs', 'derived',
+OXMETA = 'https://chaste.comlab.ox.ac.uk/cellml/ns/oxford-metadata#'
+QUERIES = ['outcome', 'query_err', 'terms', 'ac_variables', 'ac_equations', 'ac_derived', 'variables', 'vars_full', 'equations', 'states', 'state_inits', 'derivs', 'derived',
            'free', 'states_unsorted', 'derivs_unsorted', 'derived_unsorted', 'eqsfor', 'eqsfor_all', 'eqsfor_all_units',
            'eqsfor_direct', 'graph_edges', 'sorted_follow_variables', 'eq_leaves', 'eq_leaves_num', 'graph_nodes']
 
@@ -302,13 +326,13 @@ def _setform(q, val):
 #   variables(): component order, then <variable> order;   equations: conversion equations in work-list order, then
 #   component maths in document order, then constants in variables() order;   sorted role queries: variables() order;
 #   unsorted role queries and graph nodes: equations order;   get_equations_for: dependency, then NAME — no document order.
-_EQ_ORDER = {'equations': 'set', 'states_unsorted': 'set', 'derivs_unsorted': 'set', 'derived_unsorted': 'set',
+_EQ_ORDER = {'ac_equations': 'set', 'equations': 'set', 'states_unsorted': 'set', 'derivs_unsorted': 'set', 'derived_unsorted': 'set',
              'graph_nodes': 'set', 'eq_leaves': 'skip', 'eq_leaves_num': 'skip'}
-_VAR_ORDER = dict(_EQ_ORDER, variables='set', vars_full='set', states='set', state_inits='set', derivs='set',
+_VAR_ORDER = dict(_EQ_ORDER, ac_variables='set', ac_derived='set', terms='set', variables='set', vars_full='set', states='set', state_inits='set', derivs='set',
                   derived='set', eqsfor='set', eqsfor_direct='set')
 _SAME = {'graph_nodes': 'set'}      # the order of graph.nodes is not even stable between processes (known finding)
 PERM_RULES = {'units': _SAME, 'groups': _SAME, 'ends': _SAME, 'toplevel': _SAME,
-              'connections': {'equations': 'set', 'derived_unsorted': 'set', 'graph_nodes': 'set', 'eq_leaves': 'skip',
+              'connections': {'ac_equations': 'set', 'equations': 'set', 'derived_unsorted': 'set', 'graph_nodes': 'set', 'eq_leaves': 'skip',
                               'eq_leaves_num': 'skip'},
               'maths': _EQ_ORDER, 'equations': _EQ_ORDER, 'components': _VAR_ORDER, 'variables': _VAR_ORDER}
 
@@ -471,6 +495,10 @@ def corpus():
         seeds = _seeds(rng, ns)
         out.append({'kind': 'file', 'files': g, 'seeds': seeds, 'perms': list(PERM_KINDS),
                     'perm_seed': rng.randrange(10 ** 9), 'perm_seeds': [seeds[-1]]})
+    # a document with several ontology terms on one variable and ODEs listed in another order than their states
+    seeds = _seeds(rng, ns)
+    out.append({'kind': 'file', 'files': [os.path.join(os.path.dirname(os.path.dirname(os.path.abspath(__file__))), 'data', 'c15_terms_odes.cellml')], 'seeds': seeds,
+                'perms': list(PERM_KINDS), 'perm_seed': rng.randrange(10 ** 9), 'perm_seeds': [seeds[-1]]})
     return out
 
 
